@@ -43,6 +43,9 @@ func runC03(o opts) error {
 			scns = append(scns, c03.F3AfterTimeout(rng))
 		}
 		scns = append(scns, c03.QueryCaps(rng)...)
+		for i := 0; i < nq/2; i++ {
+			scns = append(scns, c03.Backpressure(rng))
+		}
 	}
 	sink, err := trace.NewSink(o.out, o.shards)
 	if err != nil {
